@@ -383,9 +383,23 @@ pub fn to_ref(m: &Message<'_>) -> RefMsg {
 }
 
 /// Reference message -> library message (owned data), by constructing the public enum only.
+/// An owned copy of `data` in a buffer whose capacity varies with (data, salt): exactly sized, a little larger, or far
+/// larger than what it holds (a reused line buffer). Capacity is not part of a message.
+pub fn owned_with_slack(data: &[u8], salt: usize) -> Vec<u8> {
+    let cap = match (salt / 16 + data.len()) % 5 {
+        0 | 1 => data.len(),
+        2 => data.len() + 7,
+        3 => 2 * data.len() + 17,
+        _ => 1024,
+    };
+    let mut v = Vec::with_capacity(cap.max(data.len()));
+    v.extend_from_slice(data);
+    v
+}
+
 pub fn from_ref(m: &RefMsg) -> Message<'static> {
     match m {
-        RefMsg::Data { offset, data } => Message::SendData(Offset(*offset), Data::try_new(data.clone()).expect("<=255")),
+        RefMsg::Data { offset, data } => Message::SendData(Offset(*offset), Data::try_new(owned_with_slack(data, usize::from(*offset))).expect("<=255")),
         RefMsg::Count(n) => Message::DataChunksSent(ChunkCount(*n)),
         RefMsg::Hello(a) => Message::Hello(Address(*a)),
         RefMsg::Query(a) => Message::QueryState(Address(*a)),
